@@ -23,6 +23,11 @@ ASSUMPTIONS = [
     'a state whose payload holds a live awaitable (a work chain waiting on futures) cannot be saved by the real code '
     '(copy.deepcopy raises); model and harness must agree on which snapshots these are; they are counted, not failures',
 ]
+ASSUMPTIONS.append(
+    'impl-only stream harness/props/c07_odd.py: three hand-written classes with unusual definitions (Savable mixin after Process in '
+    'the bases; a terminal hook raising after super(), i.e. excepting after the future was resolved; an output emitted from '
+    'on_finished) are saved at every state entry, sent through the three media, loaded (current loop own / foreign / none) and '
+    'saved again; decided by the round-trip clauses on the real objects, no model')
 TRUSTED = ['persistence model lean/PlumpyModel/Persist/Model.lean (hand-written mirror of Savable / Process / state classes / '
            'steppers save+load), compared key by key with the real bundle and with the view of the re-loaded process',
            'copy.deepcopy, pickle, PyYAML (identity on bundles in the model; exercised through the real libraries)',
@@ -319,6 +324,12 @@ def run(ctx):
     divergences, failures, hist = [], [], {}
     distinct = set()
     n_round_trips = 0
+    # impl-only: unusual but legal class definitions (base order, hooks failing / emitting after the future was resolved)
+    from harness.props import c07_odd
+    with mp.Pool(1, maxtasksperchild=1) as pool:
+        odd = pool.apply(c07_odd.run_stream)
+    failures.extend(odd['failures'])
+    hist['odd_class_round_trips'] = odd['round_trips']
     for ci, res in enumerate(results):
         failures.extend(res['failures'])
         for k, v in res['hist'].items():
@@ -356,6 +367,12 @@ def run(ctx):
 
 
 def replay(ctx, failure):
+    if 'odd_class' in failure['case']:
+        from harness.props import c07_odd
+        with mp.Pool(1, maxtasksperchild=1) as pool:
+            odd = pool.apply(c07_odd.run_stream)
+        return dict(failures=[dict(signature=f['signature'], clause=f['clause'], case=f['case'], detail=str(f['detail'])[:600])
+                              for f in odd['failures']])
     case = {k: v for k, v in failure['case'].items() if k not in ('where', 'mode')}
     case['prog'] = _fix_prog(case['prog'])
     res = run_case(case)
